@@ -16,6 +16,8 @@ mod pipes;
 pub mod sanity;
 mod stream;
 mod tag;
+#[cfg(feature = "verif-hooks")]
+pub mod verif_hooks;
 
 pub use self::error::{FilterRepoError, Result as FilterRepoResult};
 pub use opts::{AnalyzeConfig, AnalyzeThresholds, Mode, Options};
